@@ -3,7 +3,8 @@ from .. import core, chargen
 from .c12 import glyph_count
 
 WORDS = ["a", "ab", "correct", "horse", "é", "kettő", "három", "日本", "😀", "Polish", "", "0", "-", " ", "¡", "--", "foo-bar"] * 4 + \
-        ["x" * 254, "x" * 255, "x" * 256, "é" * 255, "é" * 256, "é" * 128]
+        ["x" * 254, "x" * 255, "x" * 256, "é" * 255, "é" * 256, "é" * 128] + \
+        ["e\u0301", "\u0301", "ǆ", "ǅ", "ıa", "ſ", "𝓍", "𝒳y", "👨\u200d👩\u200d👧", "ﬁ", "\u200d", "\ufeff", "😀" * 255, "😀" * 256, "e\u0301" * 128]
 
 
 def gen_sequences(ctx):
@@ -21,6 +22,13 @@ def gen_sequences(ctx):
     seqs.append([("a", 1), ("-", 0), ("b", 7)])
     seqs.append([("x" * 256, 1)])
     seqs.append([("é" * 255, 1), ("é" * 256, 1)])
+    # long sequences: token counts around every machine-size boundary an encoder might use
+    for k in (127, 128, 129, 255, 256, 257, 300, 1000) if ctx.tier == "thorough" else (128, 255, 256, 257, 600):
+        seqs.append([(rng.choice(["a", "é", "😀"]), 1) for _ in range(k)])                       # character password
+        seqs.append([(rng.choice(WORDS[:17]), 1) for _ in range(k)])                               # all atoms
+        m = k | 1
+        seqs.append([((rng.choice(WORDS[:10]), 1) if j % 2 == 0 else ("-", 0)) for j in range(m)])  # alternating
+        seqs.append([(rng.choice(WORDS[:17]), rng.choice([0, 1, 2])) for _ in range(k)])           # full
     n = 1500 if ctx.tier == "quick" else 20000
     for _ in range(n):
         style = rng.random()
